@@ -7,6 +7,7 @@
 //!   7 hll_parts lg_k kxq0_bits kxq1_bits cur_min num_at_cur_min -> [raw bitmap composite]  (out-of-order estimator)
 //!   8 mc kind(0 hll,1 cpc,2 theta) lg_k variant n trials seed -> [trials sum_relerr sum_relerr^2 cover1 cover2 cover3]  (Monte Carlo)
 //!   9 hll_union lg_k type n seed -> [est lb1..3 ub1..3 of the HllUnion itself, then of to_sketch(Hll8), is_empty]
+//!  10 cpc_image bytes… -> ERR | [est lb1..3 ub1..3 is_empty num_coupons merge_flag, then the CpcWrapper's seven | ERR]
 //! Sketch-level ops (public API only; items are the distinct integers seed*2^32 + i, i < n):
 //!   4 hll_sk   lg_k type n seed mode   mode 0 streamed, 1 serialize+deserialize, 2 union of two overlapping halves,
 //!                                      3 union of the same two halves read back from bytes
@@ -258,6 +259,24 @@ impl Family for Fam {
                 ob.extend(seven(r.estimate(), |s| r.lower_bound(s), |s| r.upper_bound(s)));
                 ob.push(u.is_empty() as i128);
                 ob
+            }
+            10 => {
+                // a CPC image given as bytes: the sketch's and the wrapper's estimate and bounds
+                let bytes: Vec<u8> = a.iter().map(|x| *x as u8).collect();
+                match CpcSketch::deserialize(&bytes) {
+                    Err(_) => vec![ERR],
+                    Ok(s) => {
+                        let mut ob = seven(s.estimate(), |k| s.lower_bound(k), |k| s.upper_bound(k));
+                        ob.push(s.is_empty() as i128);
+                        ob.push(s.num_coupons() as i128);
+                        ob.push(s.verif_state().merge_flag as i128);
+                        match CpcWrapper::new(&bytes) {
+                            Ok(w) => ob.extend(seven(w.estimate(), |k| w.lower_bound(k), |k| w.upper_bound(k))),
+                            Err(_) => ob.push(ERR),
+                        }
+                        ob
+                    }
+                }
             }
             _ => panic!("bounds: unknown op {code}"),
         }
